@@ -37,3 +37,27 @@ Fixpoint parse_forest (fuel : nat) (i : nat) (l : list Z) : list gwnode :=
 (* input: via index (or -1) per gateway in creation order; output: number of passes of the while loop *)
 Definition run_rounds (inp : list Z) : list Z :=
   let g := parse_forest (length inp) 0 inp in [Z.of_nat (rounds (S (length g)) g)].
+
+(* Group.terminate pass by pass: which gateways each pass hands to safe_terminate, in that order *)
+Fixpoint terminate_trace (c : tcfg) (fuel : nat) (s : gstate) (acc : list (list nat)) : list (list nat) :=
+  match fuel with
+  | O => acc
+  | S f => match members s, (if joins_pending c then tojoin s else []) with
+           | [], [] => acc
+           | _, _ => terminate_trace c f (tpass c s) (acc ++ [map gid (tojoin s) ++ map gid (exiting c s)])
+           end
+  end.
+(* input: n, then n via indices (or -1), then n flags (1 = exit()ed by the user before terminate, in index order);
+   output: number of passes, then per pass its length and the gateway indices *)
+Definition run_terminate (c : tcfg) (inp : list Z) : list Z :=
+  match inp with
+  | n :: r =>
+      let k := Z.to_nat n in
+      let g := parse_forest k 0 (firstn k r) in
+      let flags := map (fun z => negb (z =? 0)%Z) (firstn k (skipn k r)) in
+      let tagged := combine g flags in
+      let s := {| members := map fst (filter (fun p => negb (snd p)) tagged); tojoin := map fst (filter snd tagged); joined := [] |} in
+      let tr := terminate_trace c (2 * k + 3) s [] in
+      Z.of_nat (length tr) :: flat_map (fun p => Z.of_nat (length p) :: map Z.of_nat p) tr
+  | _ => [(-999)%Z]
+  end.
